@@ -85,6 +85,22 @@ CHECKS["C03"] = dict(
    design="DESIGN.md 4 C03",
    note="Trusted: Coq kernel + vm_compute; torch.utils.data.DataLoader as the named reference; arrival-scheduling context.",
    technique="Coq proof over hand-written Gallina model + lockstep correspondence under scheduled arrival + torch differential oracle")
+CHECKS["C05"] = dict(
+   text="Same SDL model, whose next() takes the arrival SCHEDULE as an argument: theorems in Properties_C05.v quantify over all schedules. Correspondence: the same checkpoint/resume history "
+        "is run with REAL worker processes under four adversarial arrival-schedule pairs (always-first, always-last, rotating, random) per configuration and interruption point; streams and "
+        "continuations must coincide across schedules and with the reference; the checkpointed worker positions must equal the items handed to the user (never the prefetched position); "
+        "each realised schedule is replayed in the model and compared step by step.",
+   design="DESIGN.md 4 C05",
+   note="Trusted: Coq kernel + vm_compute; arrival-scheduling context (every arrival order consistent with per-worker FIFO is realisable and is a model schedule).",
+   technique="Coq proof over hand-written Gallina model (schedule-quantified) + lockstep correspondence under adversarial scheduled arrival + direct oracle")
+CHECKS["C10"] = dict(
+   text="Same SDL model with in-band error results (RErr: the failing task consumes a slot, nothing else advances); theorems in Properties_C10.v. Correspondence: map-style datasets with "
+        "every kind of failing-index subset under random arrival schedules with real workers, consumer catches and continues, every next() compared with the model; oracle: the consumer-visible "
+        "sequence equals the reference with the same exception type at exactly the failing batches; also num_workers=0, collate_fn errors, worker_init_fn errors (delivered at iterator creation), "
+        "iterator-class IterableDatasets.",
+   design="DESIGN.md 4 C10",
+   note="Trusted: Coq kernel + vm_compute; arrival-scheduling context; known finding D9 (snapshot interval > 1 after an error) is reproduced by the faithful model (OAssert) and matched specifically.",
+   technique="Coq proof over hand-written Gallina model + lockstep correspondence under scheduled arrival + direct oracle")
 props = [json.loads(l) for l in open(os.path.join(V, "properties.jsonl"))]
 checks, na = [], []
 for p in props:
